@@ -5,6 +5,18 @@ props = [json.loads(l) for l in open(os.path.join(VERIF, "properties.jsonl"))]
 ids = [p["id"] for p in props]
 
 CHECKS = {
+ "C02": dict(
+   text="Proof: props/C02.v states for hierarchies of ANY depth, any exposure subset at every level, any number of placements of a "
+        "sub-circuit (each with its own leaf pins) and any per-level schedule rule: the nested solve (model of Structure.createS with a "
+        "solver: recursive solve, adoption of the solved pins, restriction to the exposed pins) reports the network equations of the "
+        "equivalent single-level circuit (hier_sound, by a custom induction over the nested tree) and therefore has exactly the "
+        "coefficients of any solve of the flat circuit (hier_transparent); a bare component equals a solver containing only it with all "
+        "pins raised (bare_equals_wrapped). Closed under the global context. The tie builds nested Solvers in /repo (shared sub-solvers "
+        "placed several times, partial exposure, and a stream that edits a shared sub-solver between two solves of the parent) and "
+        "compares the observed top-level matrix with both the nested model and the flat model.",
+   note="Trusted: Coq kernel + vm_compute; Bignums primitives for the executed instance; model tied by sampled correspondence; harness "
+        "(resolution of pin names to leaf pins is done by the harness; name handling is C16's subject). Conditional on the model returning Ok.",
+   technique="Coq proof (induction over arbitrary nesting) + vm_compute correspondence nested-vs-flat-vs-implementation", design="§5 C02"),
  "C08": dict(
    text="Proof: props/C08.v states for every netlist and schedule with a defined result: all components passive => for every excitation "
         "of the exposed pins (any exposure subset) outgoing power <= incoming power; all lossless => equality (and S^H S = I implies the "
